@@ -32,7 +32,7 @@
 (*   MaxFaults > 0, KeepNextId = FALSE -> seeded S51 (the id of a creation *)
 (*                            that failed half-way is handed out again)    *)
 (***************************************************************************)
-EXTENDS Integers, Sequences, FiniteSets, TLC, LogOps
+EXTENDS Integers, Sequences, FiniteSets, TLC, LogOps, SegOps      \* SegOps: the metadata transactions (shared with WalImplTrace)
 
 CONSTANTS MaxIdx,        \* entries ever appended
           SealAt,        \* a tail holding this many entries is sealed by the append
@@ -58,12 +58,8 @@ VARIABLES meta,      \* durable metadata: [next, segs]  segs = Seq of [id, base,
 
 vars == <<meta, vdir, ddir, fvol, fdur, mem, pc, alog, unsure, nc, nops, crashes, created, faults>>
 
-Seg(id, base, mn, mx, sealed) == [id |-> id, base |-> base, min |-> mn, max |-> mx, sealed |-> sealed]
 NoFile == [ents |-> <<>>, sealed |-> FALSE]
 Put(f, k, v) == [x \in DOMAIN f \cup {k} |-> IF x = k THEN v ELSE f[x]]
-
-TailOf(segs) == segs[Len(segs)]
-Ids(segs) == {segs[k].id : k \in 1..Len(segs)}
 
 (* the log a set of segments + file contents denotes (what GetLog/First/Last answer) *)
 SegEnts(sg, files) ==
@@ -118,14 +114,11 @@ OpenSegments ==     \* sealed segments must exist; tail recovered or re-created;
           ELSE pc' = <<"failed">> /\ UNCHANGED <<meta, vdir, ddir, fvol, fdur, mem, created>>
   /\ UNCHANGED <<alog, unsure, nc, nops, crashes, faults>>
 
-NewTailSegs(segs, next, base) == Append(segs, Seg(next, base, base, 0, FALSE))
-
 OpenInitCommit ==
   /\ pc = <<"open", "initcommit">>
-  /\ LET base == IF mem.segs = <<>> THEN 1 ELSE TailOf(mem.segs).max + 1
-         ns == NewTailSegs(mem.segs, mem.next, base)
-     IN /\ meta' = [next |-> mem.next + 1, segs |-> ns]
-        /\ mem' = [mem EXCEPT !.segs = ns, !.next = mem.next + 1]
+  /\ LET res == InitResult(mem.segs, mem.next)
+     IN /\ meta' = res
+        /\ mem' = [mem EXCEPT !.segs = res.segs, !.next = res.next]
   /\ pc' = <<"open", "initcreate">>
   /\ UNCHANGED <<vdir, ddir, fvol, fdur, alog, unsure, nc, nops, crashes, faults, created>>
 
@@ -137,13 +130,12 @@ OpenInitCreate ==
   /\ UNCHANGED <<meta, mem, alog, unsure, nc, nops, crashes, faults>>
 
 (* fix F1: a recovered tail that is sealed on disk is rotated now (metadata commit, then create) *)
-SealedTailSegs(segs, last) == [segs EXCEPT ![Len(segs)].sealed = TRUE, ![Len(segs)].max = last]
 OpenRotate ==
   /\ pc = <<"open", "rotate">>
   /\ IF ~RotateOnOpen THEN pc' = <<"open", "sweep">> /\ UNCHANGED <<meta, mem>>
      ELSE LET t == TailOf(mem.segs)
               last == t.base + Len(fvol[t.id].ents) - 1
-              ns == NewTailSegs(SealedTailSegs(mem.segs, last), mem.next, last + 1)
+              ns == RotateResult(mem.segs, mem.next, last).segs
           IN /\ meta' = [next |-> mem.next + 1, segs |-> ns]
              /\ mem' = [mem EXCEPT !.segs = ns, !.next = mem.next + 1]
              /\ pc' = <<"open", "initcreate">>
@@ -193,7 +185,7 @@ RotateFirst ==
   /\ Idle /\ mem.rot
   /\ LET t == TailOf(mem.segs)
          last == t.base + Len(fvol[t.id].ents) - 1
-         ns == NewTailSegs(SealedTailSegs(mem.segs, last), mem.next, last + 1)
+         ns == RotateResult(mem.segs, mem.next, last).segs
      IN IF CreateBeforeCommit
         THEN IF CreateOK(mem.next) THEN DoCreate(mem.next, last + 1) /\ pc' = <<"rotate", "commit">> /\ UNCHANGED <<meta, mem>>
              ELSE pc' = <<"failed">> /\ UNCHANGED <<meta, vdir, ddir, fvol, fdur, mem, created>>
@@ -205,7 +197,7 @@ RotateSecond ==
   /\ pc[1] = "rotate"
   /\ LET t == TailOf(mem.segs)
          last == t.base + Len(fvol[t.id].ents) - 1
-         ns == NewTailSegs(SealedTailSegs(mem.segs, last), mem.next, last + 1)
+         ns == RotateResult(mem.segs, mem.next, last).segs
      IN /\ IF pc[2] = "create"
            THEN IF CreateOK(mem.next) THEN DoCreate(mem.next, last + 1) /\ UNCHANGED meta
                 ELSE UNCHANGED <<vdir, ddir, fvol, fdur, created, meta>>      \* Create fails: rotation error is logged
@@ -223,7 +215,7 @@ ResetCommit ==
   /\ Len(fvol[TailOf(mem.segs).id].ents) = 0
   /\ TailOf(mem.segs).base + 1 <= MaxIdx
   /\ LET t == TailOf(mem.segs)
-         ns == Append(SubSeq(mem.segs, 1, Len(mem.segs) - 1), Seg(mem.next, t.base + 1, t.base + 1, 0, FALSE))
+         ns == ResetResult(mem.segs, mem.next, t.base + 1).segs
      IN /\ meta' = [next |-> mem.next + 1, segs |-> ns]
         /\ pc' = <<"del", "create", ns, {t.id}, alog>>        \* same post-commit steps as a truncation: create, publish, unlink
   /\ nops' = nops + 1
@@ -231,21 +223,15 @@ ResetCommit ==
 
 ----------------------------------------------------------------------------
 (* DeleteRange: head truncation DeleteRange(first, newMin-1), tail truncation DeleteRange(newMax+1, last) *)
-HeadSegs(segs, newMin) ==      \* drop segments wholly below newMin, raise min of the new head
-  LET keep == SelectSeq(segs, LAMBDA sg : IF sg.sealed THEN sg.max >= newMin ELSE TRUE) IN
-  IF keep = <<>> THEN keep ELSE [keep EXCEPT ![1].min = IF @ < newMin THEN newMin ELSE @]
-
 DelHeadCommit(newMin) ==
   /\ Idle /\ Room /\ ~mem.rot /\ ~IsEmpty(alog)
   /\ newMin > First(alog) /\ newMin <= Last(alog) + 1
   /\ LET t == TailOf(mem.segs)
          tlen == Len(fvol[t.id].ents)
-         tailEmptyAfter == t.base + tlen - 1 < newMin            \* nothing of the tail survives
-         keep0 == HeadSegs(mem.segs, newMin)
-         keep == IF tailEmptyAfter THEN SubSeq(keep0, 1, Len(keep0) - 1) ELSE keep0
-         all == keep = <<>>
-         ns == IF all THEN <<Seg(mem.next, Last(alog) + 1, Last(alog) + 1, 0, FALSE)>> ELSE keep
-     IN /\ meta' = [next |-> IF all THEN mem.next + 1 ELSE mem.next, segs |-> ns]
+         res == HeadResult(mem.segs, mem.next, newMin, t.base + tlen - 1)   \* the tail survives iff it holds an index >= newMin
+         all == res.next # mem.next                              \* nothing survived: a fresh tail was committed
+         ns == res.segs
+     IN /\ meta' = res
         /\ pc' = IF all THEN <<"del", "create", ns, Ids(mem.segs) \ Ids(ns), ApplyDel(alog, First(alog), newMin - 1)>>
                  ELSE <<"del", "unlink", ns, Ids(mem.segs) \ Ids(ns), ApplyDel(alog, First(alog), newMin - 1)>>
         /\ unsure' = {alog, ApplyDel(alog, First(alog), newMin - 1)}
@@ -277,9 +263,7 @@ DelTailDirect(newMax) ==      \* newMax below the tail's base: whole tail (and m
 DelTailCommit ==
   /\ pc[1] = "deltail" /\ pc[2] = "commit"
   /\ LET newMax == pc[3]
-         keep0 == SelectSeq(mem.segs, LAMBDA sg : sg.base <= newMax)
-         keep == [keep0 EXCEPT ![Len(keep0)].sealed = TRUE, ![Len(keep0)].max = newMax]
-         ns == NewTailSegs(keep, mem.next, newMax + 1)
+         ns == TailResult(mem.segs, mem.next, newMax).segs
      IN /\ meta' = [next |-> mem.next + 1, segs |-> ns]
         /\ pc' = <<"del", "create", ns, Ids(mem.segs) \ Ids(ns), ApplyDel(alog, newMax + 1, Last(alog))>>
   /\ UNCHANGED <<vdir, ddir, fvol, fdur, mem, alog, unsure, nc, nops, crashes, faults, created>>
